@@ -186,8 +186,9 @@ def simple (s : S) (p : PoolRep) (a : Act) : S × List String :=
 
 def tact (s : S) (n : Nat) (r : ThrRep) (a : TAct) (what : String) : S × List String :=
   match tstep r.st a with
-  | some st' => ({ s with thrs := setAssoc s.thrs n { r with st := st' }, actions := s.actions + 1, cov := bump s.cov ("thread-" ++ what) },
-                 if st'.fault && !r.st.fault then [s!"NOTE line {s.line}: iv_thread dead:{n}: the model predicts a use of the creator's freed loop state here (C13.finding_creator_deinit_uaf)"] else [])
+  | some st' =>
+    let s := { s with thrs := setAssoc s.thrs n { r with st := st' }, actions := s.actions + 1, cov := bump s.cov ("thread-" ++ what) }
+    if st'.fault then diverge s s!"iv_thread dead:{n}: the model uses freed memory at {what}" else (s, [])
   | none => diverge s s!"iv_thread dead:{n}: {what} is not enabled in the model"
 
 def deadNum (w : String) : Option Nat :=
@@ -333,7 +334,10 @@ def finalChecks (s : S) : S × List String :=
   let m2 := s.locals.filterMap fun (t, l) =>
     if l.st.taskReg || l.st.batch != [] then some s!"NULL pool of T{t}: the run is over but the model still has work (pending {l.st.pending}, batch {l.st.batch})" else none
   let m3 := s.thrs.filterMap fun (n, r) =>
-    if r.st.pc != .joined && !(s.quit.contains r.creator) then some s!"iv_thread dead:{n}: the run is over but the model has the thread not joined" else none
+    if r.st.pc != .joined && !(r.st.creatorGone && r.st.pc == .exited) then
+      some s!"iv_thread dead:{n}: the run is over but the model has the thread neither joined nor (exited with its creator's loop gone)"
+    else if r.st.frees != 1 then some s!"iv_thread dead:{n}: the run is over, the model has freed the record {r.st.frees} times"
+    else none
   let msgs := m1 ++ m2 ++ m3
   ({ s with diverged := s.diverged + msgs.length }, msgs.map fun m => s!"DIVERGE line {s.line}: {m}")
 
@@ -367,8 +371,8 @@ partial def stepRec (s : S) (ws : List String) : S × List String :=
       else (s, [])
     | ["API", "spawn", _, md, d] =>
       match deadNum d with
-      | some n => ({ s with thrs := s.thrs ++ [(n, { st := { mode := modeOf md }, creator := t })], actions := s.actions + 1,
-                            cov := bump s.cov ("spawn-" ++ md) }, [])
+      | some n => (putCtx { s with thrs := s.thrs ++ [(n, { st := { mode := modeOf md }, creator := t })], actions := s.actions + 1,
+                                   cov := bump s.cov ("spawn-" ++ md) } t { c with cdead := some n }, [])
       | none => (s, [s!"bad-log line {s.line}"])
     | ["API", "put", pn] => (putCtx s t { c with api := some ("put", pn, "") }, [])
     | ["API", "quit"] => ({ s with quit := s.quit ++ [t] }, [])
@@ -408,7 +412,15 @@ partial def stepRec (s : S) (ws : List String) : S × List String :=
       else (s, [])
     | ["THREAD-CREATE", tn] =>
       match tnum tn with
-      | some n => (putCtx s t { c with created := some n }, [])
+      | some n =>
+        -- outside a pool section this is a `spawn`: the new thread belongs to the dead event just registered
+        match c.sect, c.cdead with
+        | none, some d =>
+          match s.thrs.lookup d with
+          | some r => (putCtx { s with thrs := setAssoc s.thrs d { r with thread := some n }, dbind := setAssoc s.dbind d n } t
+                         { c with cdead := none }, [])
+          | none => (putCtx s t { c with created := some n }, [])
+        | _, _ => (putCtx s t { c with created := some n }, [])
       | none => (s, [])
     | ["THREAD-CREATE-FAILED", _] => ({ s with inconclusive := true }, ["NOTE thread creation failed: outside the model's assumptions"])
     | ["IREG", ev] =>
@@ -429,7 +441,13 @@ partial def stepRec (s : S) (ws : List String) : S × List String :=
         | none => (s, [])
         | some n =>
           match s.thrs.lookup n with
-          | some r => tact s n r .destruct "destruct"
+          | some r =>
+            let (s', o) := tact s n r .destruct "destruct-post"
+            match s'.thrs.lookup n with
+            | some r' =>
+              if r'.st.posts == r.st.posts + 1 then (s', o)
+              else diverge s' s!"IPOST {ev}: the implementation posts `dead`, the model does not (the creator's loop is gone: orphaned={r.st.orphaned})"
+            | none => (s', o)
           | none =>
             match s.pools.find? (fun p => (p.dw.lookup n).isSome) with
             | some p =>
@@ -472,12 +490,7 @@ partial def stepRec (s : S) (ws : List String) : S × List String :=
     | ["DEINIT"] =>
       match s.thrs.find? (fun (_, r) => r.thread == some t) with
       | some (n, r) => tact s n r .deinit "deinit"
-      | none =>
-        -- a creator that deinitialises its loop (after iv_quit) while threads it created are not joined
-        (s.thrs.filter fun (_, r) => r.creator == t && r.st.pc != .joined && !r.st.creatorGone).foldl
-          (fun (acc : S × List String) (nr : Nat × ThrRep) =>
-            let (s', o) := tact acc.1 nr.1 nr.2 .creatorDeinit "creatorDeinit"
-            (s', acc.2 ++ o)) (s, [])
+      | none => (s, [])
     | ["BODY", _, "end"] =>
       match s.thrs.find? (fun (_, r) => r.thread == some t) with
       | some (n, r) => tact s n r .leave "leave"
@@ -584,6 +597,27 @@ partial def stepRec (s : S) (ws : List String) : S × List String :=
               | pc, _ => diverge s s!"completion of {x} while the model has the owner {opcName pc}"
             | none => diverge s s!"completion of {x}: unknown pool {wh}"
       | _ => (s, [])
+    | ["THREAD-DETACH", tn] =>
+      -- iv_thread_tls_deinit_thread of the creator handles this child (under iv_thread_lock)
+      match tnum tn with
+      | some k =>
+        match s.thrs.find? (fun (_, r) => r.thread == some k && r.creator == t) with
+        | some (n, r) => tact s n r .creatorDeinit "creatorDeinit"
+        | none => (s, [])
+      | none => (s, [])
+    | ["THREAD-EXIT"] =>
+      -- a spawned thread that ends without having posted `dead`: the orphaned branch of its destructor
+      match s.thrs.find? (fun (_, r) => r.thread == some t) with
+      | some (n, r) =>
+        if r.st.pc == .exiting then
+          let (s', o) := tact s n r .destruct "destruct-orphan"
+          match s'.thrs.lookup n with
+          | some r' =>
+            if r'.st.posts == r.st.posts then (s', o)
+            else diverge s' s!"thread T{t} (dead:{n}) exited without posting `dead`, the model posts it (creator's loop alive)"
+          | none => (s', o)
+        else (s, [])
+      | none => (s, [])
     | ["THREAD-JOIN", tn] =>
       -- must be the thread bound to the dead event whose handler is running: checked through dbind by the oracle; here only count
       match tnum tn with
